@@ -154,6 +154,14 @@ def apply_step(pool, step, cfg):
         return [pool[step[1]].add_leg(axis=step[2], s=step[3])]
     if op == "remove_leg":
         return [pool[step[1]].remove_leg(axis=step[2])]
+    if op == "unit_legs":
+        # two charged dimension-one legs added next to each other, fused into one leg, and removed as one leg
+        _, i, axis, s1, t1, s2, t2, mode = step
+        a = pool[i]
+        r1 = a.add_leg(axis=axis, s=s1, t=tuple(t1)).add_leg(axis=axis + 1, s=s2, t=tuple(t2))
+        groups = tuple((axis, axis + 1) if k == axis else k for k in range(r1.ndim) if k != axis + 1)
+        f = r1.fuse_legs(axes=groups, mode=mode)
+        return [r1, f, f.remove_leg(axis=axis)]
     if op == "vdot":
         return [yastn.vdot(pool[step[1]], pool[step[2]])]
     if op == "norm":
@@ -264,7 +272,7 @@ def propose(pool, rng, fermionic, fuse_modes=(None, None, "hard", "meta")):
         return rng.choices(c, weights=w)[0]
     kind = rng.choice(("transpose", "conj", "scale", "add", "tensordot", "tensordot", "tensordot", "trace", "fuse", "fuse",
                        "unfuse", "svd", "qr", "add_leg", "remove_leg", "vdot", "norm", "swap_gate", "ncon", "broadcast",
-                       "mask", "lazy", "diag", "flip_charges", "to_dict", "zero_block", "remove_zero_blocks"))
+                       "mask", "lazy", "diag", "flip_charges", "to_dict", "zero_block", "remove_zero_blocks", "unit_legs"))
     if kind == "transpose":
         i = pick(lambda t: t.ndim >= 2 and not t.isdiag)
         if i is None:
@@ -348,6 +356,15 @@ def propose(pool, rng, fermionic, fuse_modes=(None, None, "hard", "meta")):
         if i is None:
             return None
         return ("add_leg", i, rng.randint(0, pool[i].ndim), rng.choice((1, -1)))
+    if kind == "unit_legs":
+        i = pick(lambda t: not t.isdiag and t.ndim <= MAX_RANK - 2)
+        if i is None:
+            return None
+        a = pool[i]
+        sym = G.sym_name(a.config.sym)
+        box = D.charge_box(sym)
+        return ("unit_legs", i, rng.randint(0, a.ndim), rng.choice((1, -1)), G.canon(sym, rng.choice(box)),
+                rng.choice((1, -1)), G.canon(sym, rng.choice(box)), rng.choice(fuse_modes))
     if kind == "remove_leg":
         i = pick(lambda t: not t.isdiag and t.ndim >= 1 and t.size > 0 and any(sum(l.D) == 1 and len(l.t) == 1 and not is_fused(l) for l in t.get_legs()))
         if i is None:
